@@ -115,12 +115,14 @@ func c05Drag(o c05Opts, echo, probe [][]byte, typeAtMs int) string {
 		s2c.Write([]byte("$ "))
 		vs.WaitSettled(func() bool { return false }, 0)
 		keys.Write([]byte(path + " "))
-		vs.WaitSettled(func() bool { return false }, 0)
+		if typeAtMs == 0 {
+			vs.WaitSettled(func() bool { return false }, 0)
+		}
 		if typeAtMs > 0 {
 			// the user types something else while the wrapper is busy with the drop (its Ctrl-C goes out after 300 ms, the command 200 ms later)
+			// (no settling in between: that would let the wrapper's own timers run out first)
 			vtime.Sleep(time.Duration(typeAtMs) * time.Millisecond)
 			keys.Write([]byte("x"))
-			vs.WaitSettled(func() bool { return false }, 0)
 			vtime.Sleep(time.Duration(600-typeAtMs) * time.Millisecond)
 		} else {
 			vtime.Sleep(600 * time.Millisecond) // 300 ms delay + Ctrl-C + 200 ms + the command
